@@ -51,6 +51,28 @@ def c20(ctx):
              "library's -- no code under src/cli mutates LinterResult.diags, and the chain from diags to the printed segments only maps and "
              "flattens (no filter / dedup / skip / take / rev)")
     hand_through_rule(ctx, "C20.R5")
+    rep.rule("C20.R8", "FILE is whatever can be read: under src/cli and in lib.rs nothing probes the file system (is_file / exists / metadata / "
+             "canonicalize ...) to decide whether FILE is acceptable -- the file is read, and only a failed read is a usage error; a pipe, "
+             "/dev/stdin or a FIFO is as good as a regular file")
+    probes = []
+    n_cli = 0
+    for fn in F.all_bodies(tests=False):
+        if not (fn.file.startswith("src/cli/") or fn.file == "src/lib.rs"):
+            continue
+        n_cli += 1
+        for bi, t in fn.calls():
+            d_ = callee_def(t) or ""
+            nm_ = t["callee"].get("name") or ""
+            if (d_.startswith(("std::path::Path::", "std::fs::")) and nm_ in ("is_file", "exists", "try_exists", "is_dir", "metadata", "symlink_metadata", "canonicalize", "is_symlink", "read_dir")):
+                probes.append((fn, t))
+            for a in t["args"]:
+                c_ = a.get("const")
+                if c_ and "fn" in c_ and c_["fn"].startswith(("std::path::Path::", "std::fs::")) and c_["fn"].rsplit("::", 1)[-1] in ("is_file", "exists", "is_dir", "metadata"):
+                    probes.append((fn, t))
+    okp = not probes and n_cli >= 15
+    rep.ob("C20.R8", "no-file-system-probing", okp,
+           "" if okp else ("%s probes the file system with %s before reading FILE: a readable FILE that is not a regular file is rejected as bad usage" % (common.top_fn(F, probes[0][0]).path, callee_def(probes[0][1])) if probes else "only %d cli bodies found" % n_cli),
+           probes[0][0].loc(probes[0][1]["line"]) if probes else None, how="%d bodies of src/cli and lib.rs" % n_cli)
     rep.rule("C20.R7", "the library's texts are printed as they are: in cli::linter::colorized the issue text and each suggestion go into the output "
              "through styling only (colored::Colorize methods) -- nothing splits, trims or rebuilds them (`lines()` swallows a CR); and the "
              "message of a parse / runtime error is `to_string()` of the library's error handed straight to a styling method, after the prefix "
